@@ -172,6 +172,34 @@ def _input_factory(inp: Recipe) -> Any:
             )
 
         return gauss_factory
+    if t == "mixed_sig":
+        # signature Gaussians on the even variables, one-hot categoricals on the odd ones (k = number
+        # of units, so the emitted category identifies the unit): circuits that mix discrete and
+        # continuous input layers through a per-variable factory
+        from cirkit.symbolic.parameters import ConstantParameter, Parameter
+
+        sigma = float(inp.get("sigma", 1e-3))
+        shift = int(inp.get("shift", 0))
+
+        def mixed_factory(scope: Any, num_units: int) -> Any:
+            (v,) = tuple(scope)
+            if v % 2 == 0:
+                mean = np.array([10.0 * v + u for u in range(num_units)])
+                return GaussianLayer(
+                    scope, num_units,
+                    mean=Parameter.from_input(ConstantParameter(num_units, value=mean)),
+                    stddev=Parameter.from_input(ConstantParameter(num_units, value=sigma)),
+                )
+            k = num_units
+            tab = np.zeros((num_units, k))
+            for u in range(num_units):
+                tab[u, (v + u + shift) % k] = 1.0
+            return CategoricalLayer(
+                scope, num_units, num_categories=k,
+                probs=Parameter.from_input(ConstantParameter(num_units, k, value=tab)),
+            )
+
+        return mixed_factory
     if t == "categorical_sparse":
         # constant, sparse (some exactly-zero) probability tables, rows summing to one: gives
         # the circuit a non-trivial support.  'onehot': unit u of variable v always emits
@@ -209,6 +237,8 @@ def input_domain(inp: Recipe) -> tuple[str, int]:
     t = inp["type"]
     if t in ("categorical", "embedding", "categorical_sparse"):
         return "discrete", int(inp["k"])
+    if t == "mixed_sig":
+        return "real", 0
     if t == "binomial":
         return "discrete", int(inp["k"]) + 1
     return "real", 0
@@ -224,10 +254,11 @@ def gen_input(
         # raw 'probs' tensors (Dirichlet-initialised, no activation) are only valid while they
         # stay normalised, which no unconstrained update preserves: integrate() documents
         # log Z = 0 for them.  They are therefore not generated for worlds with updates.
-        params = ["default", "softmax"] if normalized else ["default", "softmax", "logits"]
+        # (a 'logits' parameterisation is normalised as well: the layer applies log-softmax)
+        params = ["default", "softmax", "logits"]
         return {"type": t, "k": rng.randint(2, 4), "param": rng.choice(params)}
     if t == "binomial":
-        params = ["default", "sigmoid"] if normalized else ["default", "sigmoid", "logits"]
+        params = ["default", "sigmoid", "logits"]
         return {"type": t, "k": rng.randint(1, 3), "param": rng.choice(params)}
     if t == "gaussian":
         return {"type": t}
